@@ -161,13 +161,13 @@ type Exec struct {
 	B *smt.Builder
 	S *smt.Solver
 
-	prefix    []int
-	pos       int
-	decisions []int
-	pending   []PathSpec
+	prefix     []int
+	pos        int
+	decisions  []int
+	pending    []PathSpec
 	replayVals map[int]uint64
 	concVals   map[int]uint64
-	pcTerms   []*smt.Term
+	pcTerms    []*smt.Term
 
 	gs      []*G
 	cur     *G
@@ -180,25 +180,25 @@ type Exec struct {
 	varCount map[string]int
 	res      *PathResult
 
-	mutexes map[*Loc]*mutexState
-	wgs     map[*Loc]*wgState
-	onces   map[*Loc]*onceState
-	timers  []*CtxObj
-	tokGen  int
-	allowLeak bool
-	preempts  int
-	lastG     *G
-	ufApps    map[string][]ufApp
-	frozenN   int
-	nativeFn  map[string]*ssa.Function
-	race      *raceState
-	initDone  map[*ssa.Package]bool
-	trace     []string
-	pbCache   map[*Loc]*PRMsg
-	clockLast *smt.Term
-	tierVals  map[string]int
-	sleep     map[string]footprint
-	fdCache   map[*pbFieldInfo]*PRField
+	mutexes     map[*Loc]*mutexState
+	wgs         map[*Loc]*wgState
+	onces       map[*Loc]*onceState
+	timers      []*CtxObj
+	tokGen      int
+	allowLeak   bool
+	preempts    int
+	lastG       *G
+	ufApps      map[string][]ufApp
+	frozenN     int
+	nativeFn    map[string]*ssa.Function
+	race        *raceState
+	initDone    map[*ssa.Package]bool
+	trace       []string
+	pbCache     map[*Loc]*PRMsg
+	clockLast   *smt.Term
+	tierVals    map[string]int
+	sleep       map[string]footprint
+	fdCache     map[*pbFieldInfo]*PRField
 	freshChoice bool
 	tokenTable  []tokenEntry
 	freezing    string
@@ -244,19 +244,19 @@ type deferred struct {
 }
 
 type Frame struct {
-	fn       *ssa.Function
-	info     *fnInfo
-	env      []Value
-	block    *ssa.BasicBlock
-	prev     *ssa.BasicBlock
-	ip       int
-	defers   []*deferred
-	onReturn func(v Value)
-	catch    bool // vt.Try frame: stops panics
-	visits   map[*ssa.BasicBlock]int
-	isDefer  bool // frame runs a deferred call
-	ps       *panicState
-	deferOf  *Frame
+	fn        *ssa.Function
+	info      *fnInfo
+	env       []Value
+	block     *ssa.BasicBlock
+	prev      *ssa.BasicBlock
+	ip        int
+	defers    []*deferred
+	onReturn  func(v Value)
+	catch     bool // vt.Try frame: stops panics
+	visits    map[*ssa.BasicBlock]int
+	isDefer   bool // frame runs a deferred call
+	ps        *panicState
+	deferOf   *Frame
 	recovered bool
 }
 
